@@ -748,6 +748,14 @@ func streamDocs(g *core.G) {
 				g.Emit(o, a...)
 				g.Emit("law-accessors", kind, core.Hex(multi))
 			}
+			if r.Chance(1, 3) {
+				// several stanzas through every entry point, also into ONE variable that is decoded
+				// into again and again while copies of it are kept (law-codecentry)
+				t2, _ := genTypedDoc(r, kind)
+				t3, _ := genTypedDoc(r, kind)
+				o, a := codecOp("law-codecentry", kind, core.Hex(text+"\n"+t2+"\n"+t3))
+				g.Emit(o, a...)
+			}
 			if r.Chance(1, 4) && len(text) > 0 {
 				// single-edit corruption: model = implementation must still agree
 				p := r.Intn(len(text))
@@ -794,7 +802,7 @@ func init() {
 			"fingerprint:control.DSC.Maintainers", "fingerprint:control.DSC.HasArchAll", "fingerprint:control.DSC.AbsFiles", "fingerprint:control.DSC.DebianSource",
 			"fingerprint:control.BinaryIndex.SourcePackage", "fingerprint:control.BestChecksums.Checksums", "fingerprint:control.Paragraph.getOptionalDependencyField"},
 		Streams: []core.Stream{{Name: "docs", Gen: streamDocs,
-			Domain: "per document kind (.dsc, .changes, debian/control source and binary paragraphs, Packages, Sources, BestChecksums, .deb control): models with every field present/absent, list lengths 1-4, folded vs single-line lists, folded dependency fields, 1-3 checksum/file entries, unknown extra fields, rendered in the real Debian layout; typed entry points (ParseDsc, ParseChanges, ParseControl, ParseBinaryIndex, ParseSourceIndex, Unmarshal) vs the schema-interpreter model on the reflect-derived schema; law-doc: every Debian field lands in the expected struct field with the expected parsed value; law-accessors: Maintainers, HasArchAll, AbsFiles, DebianSource, SourcePackage, Get*Depends, Checksums; the file entry points (ParseDscFile, ParseChangesFile, ParseControlFile, Changes.GetDSC) on absolute, relative and redundant spellings of the path: Filename absolute and cleaned, AbsFiles in the control file's directory; single-edit corruptions (model = implementation)"}},
+			Domain: "per document kind (.dsc, .changes, debian/control source and binary paragraphs, Packages, Sources, BestChecksums, .deb control): models with every field present/absent, list lengths 1-4, folded vs single-line lists, folded dependency fields, 1-3 checksum/file entries, unknown extra fields, rendered in the real Debian layout; typed entry points (ParseDsc, ParseChanges, ParseControl, ParseBinaryIndex, ParseSourceIndex, Unmarshal) vs the schema-interpreter model on the reflect-derived schema; law-codecentry: several stanzas through Unmarshal into a slice, a Decoder loop with fresh and with one reused variable (kept copies unchanged), UnpackFromParagraph; law-doc: every Debian field lands in the expected struct field with the expected parsed value; law-accessors: Maintainers, HasArchAll, AbsFiles, DebianSource, SourcePackage, Get*Depends, Checksums; the file entry points (ParseDscFile, ParseChangesFile, ParseControlFile, Changes.GetDSC) on absolute, relative and redundant spellings of the path: Filename absolute and cleaned, AbsFiles in the control file's directory; single-edit corruptions (model = implementation)"}},
 		Impl: codecImpl, Readable: docsReadable, TrustedBase: tb,
 	})
 }
